@@ -109,11 +109,15 @@ func genC03(t *rapid.T) CaseC03 {
 	}
 	b := p.MustBytes()
 	c := CaseC03{Pkt: clone(b[:])}
-	n := rapid.IntRange(1, 40).Draw(t, "steps")
+	n := rapid.IntRange(1, 60).Draw(t, "steps")
 	// the generator follows the reference model (not the library) so that lengths
 	// can be aimed at "exactly fits" / "one too many" for the state reached
 	cur := p.AF.Clone()
 	for i := 0; i < n; i++ {
+		// a per-step "keep" draw lets the shrinker delete any single step (it minimises towards false)
+		if !rapid.Bool().Draw(t, "keep") && (i > 0 || n > 1) {
+			continue
+		}
 		o := genC03Op(t, cur)
 		c.Ops = append(c.Ops, o)
 		if na, wantErr, _, _ := c03Apply(cur, o); !wantErr {
@@ -526,7 +530,7 @@ func checkC03(c CaseC03, x *hx.Ctx) *hx.Failure {
 var propC03 = hx.Register(hx.Prop[CaseC03]{ID: "C03", Gen: genC03, Check: checkC03})
 
 func c03Rule() {
-	hx.Rec("C03").SetRule("cases: a well-formed packet with a non-empty adaptation field (af_len 1..182 next to a payload, 183 alone; af_len biased to 1,2,7,8,13,14,20,181,182; any fitting subset of optional fields) + a history of 1..40 setter calls (three flag setters, five presence toggles in both polarities incl. repeats, SetPCR/SetOPCR with any value < 2^33*300, SetSpliceCountdown, SetTransportPrivateData/SetAdaptationFieldExtension with lengths biased to 0, exactly-fits and one-too-many, SetAdaptationField from another generated packet). After every step all 188 bytes are compared with the reference serialisation of the model and every getter of both APIs with the model; refused calls must leave the packet byte-identical; calls that fit must succeed. Enumerated: all toggle histories of length <= 3 from 8 af_len values x 32 initial flag subsets. Non-trivial: >= 1 size-changing success and >= 1 of {refused call, removal of a non-empty variable field, repeated toggle, fill to exactly af_len, successful copy of a whole field}.",
+	hx.Rec("C03").SetRule("cases: a well-formed packet with a non-empty adaptation field (af_len 1..182 next to a payload, 183 alone; af_len biased to 1,2,7,8,13,14,20,181,182; any fitting subset of optional fields) + a history of up to 60 (on average 15) setter calls (three flag setters, five presence toggles in both polarities incl. repeats, SetPCR/SetOPCR with any value < 2^33*300, SetSpliceCountdown, SetTransportPrivateData/SetAdaptationFieldExtension with lengths biased to 0, exactly-fits and one-too-many, SetAdaptationField from another generated packet). After every step all 188 bytes are compared with the reference serialisation of the model and every getter of both APIs with the model; refused calls must leave the packet byte-identical; calls that fit must succeed. Enumerated: all toggle histories of length <= 3 from 8 af_len values x 32 initial flag subsets. Non-trivial: >= 1 size-changing success and >= 1 of {refused call, removal of a non-empty variable field, repeated toggle, fill to exactly af_len, successful copy of a whole field}.",
 		"only the non-nil-ness of errors is asserted, not which sentinel",
 		"adaptation-field-only packets have af_len 183; the source of SetAdaptationField is a well-formed packet with a non-empty field",
 		"a PCR/OPCR/splice field that became present without receiving a value has no defined contents (re-read from the packet)")
